@@ -11,6 +11,8 @@ that fit them without using any parser:
 import random, sys
 
 NAMES = [b'a', b'b', b'id', b'x', b'name']
+# names with multi-byte characters; the low byte of some code points is a syntax byte: 用 U+7528 '(' 天 U+5929 ')' 为 U+4E3A ':' 是 U+662F '/' 个 U+4E2A '*' Ž U+017D '}' ŻU+017B '{'
+UNAMES = ['用户'.encode(), '天'.encode(), 'Ž'.encode(), 'naïve'.encode(), '个'.encode(), '是'.encode(), '为'.encode(), 'Ż'.encode(), 'ü'.encode()]
 CONS = [b'lower', b'even', b'noa', b'u8']
 UNREG = b'zzz'
 STATICS = [b'a', b'b', b'ab', b'abc', b'.', b'-', b'm', b'x', b'y', b'.txt', 'é'.encode(), 'è'.encode(),
@@ -42,6 +44,8 @@ class G:
     def param(self, used, allow_wild=True, unreg=0.03):
         r = self.r
         names = [n for n in NAMES if n not in used] or [b'p%d' % len(used)]
+        if r.random() < 0.08:
+            names = [n for n in UNAMES if n not in used] or names
         n = r.choice(names); used.append(n)
         kind = 'w' if allow_wild and r.random() < 0.3 else 'd'
         c = None
@@ -559,7 +563,7 @@ def scen_threads(g, n):
     return out
 
 
-SYNTAX = [b'/', b'{', b'}', b'(', b')', b'\\', b':', b'*', b'a', b'b', 'é'.encode()]
+SYNTAX = [b'/', b'{', b'}', b'(', b')', b'\\', b':', b'*', b'a', b'b', 'é'.encode(), 'Ž'.encode()]   # Ž = U+017D: the low byte of the code point is '}'
 
 
 def scen_parse_exhaustive(maxlen, alphabet=SYNTAX):
@@ -688,13 +692,26 @@ def scen_groups(g, n):
         L = ['parse ' + hx(t), 'new 0', 'new 1']
         for c in ['lower', 'even', 'noa']:
             L += ['cons 0 ' + c, 'cons 1 ' + c]
+        # routes that are already there when the grouped template arrives: relatives of its expansions (shared
+        # prefixes, renamed / re-constrained parameters), so that the expansions split and extend existing nodes
+        exps = g.expansions(it)
+        others = []
+        if r.random() < 0.75:
+            for _ in range(r.choice([1, 1, 2, 3])):
+                base = r.choice(exps) or [('s', b'/')]
+                k = r.random()
+                others.append(g.share_prefix(base, vocab) if k < 0.45 else g.sibling(base) if k < 0.75 else g.key_sibling(base) if k < 0.9 else g.template_items(vocab))
+        d = 20
+        for o in others:
+            to = hx(g.render(o))
+            L += ['insert 0 %s %d' % (to, d), 'insert 1 %s %d' % (to, d)]; d += 1
         L.append('insert 0 %s 7' % hx(t))
         seen = set()
-        for f in g.expansions(it):
+        for f in exps:
             e = g.render(f) or b'/'
             if e not in seen:
                 seen.add(e); L.append('insert 1 %s 7' % hx(e))
-        others = g.pool(2, vocab)
+        others = others + g.pool(2, vocab)
         for p in g.paths_for([it] + others, 12):
             L += ['search 0 ' + hx(p), 'search 1 ' + hx(p)]
         L.append('delete 0 %s' % hx(t))
